@@ -8,7 +8,7 @@ CONSTANTS
   MaxPauses = 0
   TimeoutTicks = 2
   MaxTicks = 3
-INVARIANTS ObsFidelity ObsNoSilentCorruption
+INVARIANTS ObsFidelity ObsShortPauseCompletes ObsPauseNoHang ObsNoDataWhilePaused
 CONSTRAINT HW
 POSTCONDITION Accepted
 CHECK_DEADLOCK FALSE
